@@ -4,6 +4,8 @@ OWNED: (regex on the clause key, [properties]) -- first match wins; obligations 
 property listed in their contract's `props`.
 """
 OWNED = [
+    (r"Sequence\.(enable_eom_mode|disable_eom_mode)/ensures\.(was-|in-eom-mode-afterwards)", ["C13", "C15"]),
+    (r"Sequence\.(enable_eom_mode|disable_eom_mode|modify_eom_setpoint)/", ["C15"]),
     (r"Sequence\._add/ensures\.(assert:targets-share-one-reference|assert:phase-uses-some-target's-reference|phase-is-programmed-plus-reference|starts-after-latest-phase-shift-of-targets|targets-marked-used|post-phase-shift-applied|BRINV)", ["C07"]),
     (r"Sequence\._add/ensures\.(scheduled-duration-is-validated|accepted-unchanged-if-clock-multiple|within-limits-if-unchanged)", ["C01"]),
     (r"Sequence\._add/ensures\.appends-a-pulse-slot-on-the-same-targets", ["C02"]),
@@ -37,7 +39,7 @@ PROPS = {
                 assumptions=["A-PI 3 < pi < 4 (only positivity is used)", "SLM-mask DMM side effect of _add is excluded by precondition (no pending SLM mask DMM)"]),
     "C13": dict(lemmas=[], not_decided=["acceptance direction (mode allows => returns) beyond the guards", "declare_channel / config_slm_mask typestate (bounded stand-in only)"],
                 assumptions=[]),
-    "C15": dict(lemmas=["L-lpsi-agree"], not_decided=["emulated populations under drift correction (QuTiP): only the drift bookkeeping is specified (the correction covers the time since the last real pulse "
+    "C15": dict(lemmas=["L-lpsi-agree", "L-lpsi-extend"], not_decided=["emulated populations under drift correction (QuTiP): only the drift bookkeeping is specified (the correction covers the time since the last real pulse "
                                                       "without gap or overlap) and proved for modify_eom_setpoint; enable_eom_mode / disable_eom_mode / add_eom_pulse drift terms: bounded stand-in",
                                                       "closest off-detuning option (numpy argmin; bounded stand-in)"],
                 assumptions=["A-EOMBW"]),
